@@ -529,10 +529,12 @@ def rule_sort4(prog):
             core = [e for e in p.log if e.kind == 'call' and
                     isinstance(e.target, FRef)]
             if not core:
-                r.fail(Finding(PROP, 'R-SORT-4', f.where(), f.short(),
-                               'nocore', 'a returning path of %s.modelcheck '
-                               'never reaches a checking routine' % lang))
-                continue
+                # nothing recognised as the checking core on this path
+                # (e.g. it is reached through a computed function value):
+                # outside the fragment
+                raise Inconclusive('R-SORT-4', 'a returning path of '
+                                   '%s.modelcheck reaches no recognised '
+                                   'checking routine' % lang, f.where())
             r.inst(lang=lang, path_condition=[
                 ('' if pol else 'not ') + repr(c) for (c, pol) in p.pc][:8],
                 core=[e.target.fi.short() for e in core],
